@@ -129,6 +129,18 @@ fn run_seed<K: Kernel<D, Scalar = f64>, const D: usize>(rep: &Report, cn: &Cn, k
         if pts.len() == D + 3 {
             rep.sample(json!({"D": D, "kernel": kname, "family": family, "points": pts.iter().map(|p| p.to_vec()).collect::<Vec<_>>(), "closure_states": cl.states.len(), "general_position": gp}), 8);
         }
+        // the same closure from a build with recycled vertex slots (unperturbed builds only, so that `pts` describes it)
+        if let Some(rdt) = corpus::build_recycled::<K, D>(pts, TopologyGuarantee::PLManifold) {
+            if rdt.vertices().all(|(_, v)| pts.iter().any(|p| p == v.point().coords())) {
+                let cl = flip_closure(&rdt, false, cap);
+                cn.transitions.fetch_add(cl.transitions, Ordering::Relaxed);
+                for (dt, valid, dist) in &cl.states {
+                    if *valid {
+                        repair_and_check(rep, cn, kname, family, "flip_closure", pts, gp, refdt.as_ref(), dt, *dist);
+                    }
+                }
+            }
+        }
         // after removal of each vertex with repair disabled
         for v in 0..seed.number_of_vertices() {
             let mut d = seed.clone();
